@@ -17,7 +17,8 @@ CONSTANTS FullLen,     \* all row sequences up to this length over the full 16-r
           IdxLen,      \* idx family: index arrays up to this length over -1..n
           GraphN,      \* all graphs with up to this many atoms
           LemmaN,      \* lemma family: graphs with up to this many atoms ...
-          LemmaL       \* ... subdivided with 1..LemmaL new atoms per bond
+          LemmaL,      \* ... subdivided with 1..LemmaL new atoms per bond
+          LoopN        \* loop family: graphs with up to this many atoms plus one self-bond
 
 VARIABLES kind, inp, exp
 vars == <<kind, inp, exp>>
@@ -87,6 +88,7 @@ Chunks ==
   \cup {<<"idx", rows>> : rows \in BSeq(RowsIdx, IdxRows)}
   \cup UNION {{<<"graph", n, E0>> : E0 \in SUBSET ZeroPairs(n)} : n \in 0..GraphN}
   \cup {<<"lemma", n, L>> : n \in 2..LemmaN, L \in 1..LemmaL}
+  \cup {<<"loop", n, a>> : n \in 1..LoopN, a \in 0..(LoopN - 1)}
 
 Set(k, i, e) == kind' = k /\ inp' = i /\ exp' = e
 SegState(rows) == \E data \in DataFor(rows) : Set("seg", [rows |-> rows, data |-> data], SegExp(rows, data))
@@ -104,6 +106,12 @@ Expand(c) ==
     [] c[1] = "lemma" ->
          \E g \in Graphs(c[2]) :
            Set("lemma", [n |-> g.n, E |-> g.E, L |-> c[3]], LemmaExp(g.n, g.E, c[3]))
+    [] c[1] = "loop" ->
+         \* a bond from an atom to itself joins nothing: the molecules are those of the
+         \* graph without it (the expected values are computed from the loop-free graph)
+         \E g \in Graphs(c[2]) :
+           /\ c[3] < c[2]
+           /\ Set("loop", [n |-> g.n, E |-> g.E \cup {<<c[3], c[3]>>}, plain |-> g.E], GraphExp(g.n, g.E))
 
 Init == kind = "root" /\ inp = <<>> /\ exp = <<>>
 Next ==
@@ -147,6 +155,12 @@ InvGraph ==
     /\ exp.comps = Components(inp.n, inp.E)
     \* a subdivision with L = 0 is the graph itself
     /\ SubComponents(inp.n, inp.E, 0) = Components(inp.n, inp.E)
+
+InvLoop ==
+  kind = "loop" =>
+    /\ Components(inp.n, inp.E) = Components(inp.n, inp.plain)
+    /\ \A r \in Atoms(inp.n) : ImplConnected(inp.E, r) = Reach(inp.n, inp.plain, r)
+    /\ exp.comps = Components(inp.n, inp.plain)
 
 InvLemma ==
   kind = "lemma" =>
